@@ -68,6 +68,26 @@ def destOp (toks : List String) : String :=
       | some b => "ok " ++ hexOfBytes b
       | none => "err"
     | none => "bad-op"
+  | "aread" :: script =>
+    -- the AsyncRead side of an owned Stream = the chunk-queue reader; an abandoned read consumes nothing
+    let step := fun (acc : Option (RState × List String)) (t : String) =>
+      match acc with
+      | none => none
+      | some (r, outs) =>
+        if t.startsWith "c:" then (bytesOfHex (t.drop 2).toString).map (fun d => (r.push d, outs))
+        else if t.startsWith "r:" then
+          match (t.drop 2).toString.toNat? with
+          | some n =>
+            match r.read n with
+            | (.data b, r') => some (r', outs ++ ["d" ++ hexOfBytes b])
+            | (.eof, r') => some (r', outs ++ ["eof"])
+            | (.block, r') => some (r', outs ++ ["block"])
+          | none => none
+        else if t == "x" then some (r.closeChan, outs)
+        else none
+    match script.foldl step (some (({} : RState), [])) with
+    | some (_, outs) => joinSep "," outs
+    | none => "bad-op"
   | "udpback" :: dgrams =>
     -- the server's udp → stream loop (its slice regenerated from the source): the chunks submitted for these datagrams
     match allSome (dgrams.map bytesOfHex) with
